@@ -13,6 +13,13 @@ For an object ``o`` taken at some moment of its life and ``r = restore(serialize
                   independently
     (5) purity    serializing does not change the observable state of ``o``
 
+Protocol "process": the pickle file is restored by vlib/gen/c20_child.py in a fresh interpreter whose PYTHONHASHSEED
+is the creator's (the dispatcher forces 0 in every shard) or, mostly, a different one (case["hash_seed"]), as with
+multiprocessing spawn / forkserver or from_pickle in another session: set / dict iteration orders of the creating and
+of the restoring interpreter then differ.  Entries whose behaviour may depend on such orders (HASH_SENSITIVE_ENTRIES:
+analytic disciplines with non-symmetric multi-input expressions, AutoPy, chains / MDAs built from them, grammars with
+many names, ...) get several restoring seeds in both tiers.
+
 Grammar life moments ("ops" / "grammar_ops"): read-only queries fill internal caches (cached schema, validator, pydantic
 model) that edits may not invalidate; operation sequences (vlib.gen.c20_objects.random_grammar_ops + directed ones) are
 applied to standalone grammars and to the grammars of disciplines before serializing; required names, defaults, types
@@ -54,7 +61,8 @@ RULE = (
     "sequences of read-only queries (schema, to_json, validate, to_simple_grammar, copy) interleaved with edits "
     "(required names add/remove/discard/clear, defaults, update_from_names/types, rename, restrict)) x protocol "
     "(pickle.dumps/loads with the default protocol and protocol 2, two successive pickle round trips, "
-    "to_pickle/from_pickle, copy.deepcopy, and a pickle file restored and exercised in a fresh interpreter); a case is "
+    "to_pickle/from_pickle, copy.deepcopy, and a pickle file restored and exercised in a fresh interpreter started with "
+    "the creator's string hash seed or with another PYTHONHASHSEED in 1..9 derived from the case); a case is "
     "distinct by (entry, moment, protocol) and non-trivial when the round trip returned an object on which at "
     "least one behaviour comparison was made"
 )
@@ -91,7 +99,8 @@ ANCHORS = [
     "gemseo.utils.pickle:from_pickle",
 ]
 MIN_COUNTERS = {
-    "quick": {"round_trips": 240, "round_trips_process": 8, "static_views_compared": 240, "behaviour_comparisons": 1200,
+    "quick": {"round_trips": 240, "round_trips_process": 40, "restored_under_a_different_hash_seed": 30,
+              "restored_under_the_same_hash_seed": 10, "hash_sensitive_entries_restored_under_a_different_hash_seed": 24, "static_views_compared": 240, "behaviour_comparisons": 1200,
               "jacobian_comparisons": 500, "cached_input_replays": 100, "identity_walks": 230, "independence_checks": 1500,
               "counter_checks": 440, "counter_checks_with_nonzero_counters": 130, "purity_checks": 230,
               "moment_failed_cases": 10, "scenario_runs_compared": 9, "round_trips_kind_discipline": 180,
@@ -100,7 +109,8 @@ MIN_COUNTERS = {
               "factory_classes_covered": 60, "grammar_op_sequences": 140,
               "grammar_op_sequences_with_cached_read_then_required_edit": 60, "grammar_ops_applied": 400,
               "grammar_validation_verdicts_compared": 2000},
-    "thorough": {"round_trips": 1350, "round_trips_process": 90, "static_views_compared": 1350,
+    "thorough": {"round_trips": 1350, "round_trips_process": 90, "restored_under_a_different_hash_seed": 100,
+                 "restored_under_the_same_hash_seed": 25, "hash_sensitive_entries_restored_under_a_different_hash_seed": 50, "static_views_compared": 1350,
                  "behaviour_comparisons": 6600, "jacobian_comparisons": 3000, "cached_input_replays": 600,
                  "identity_walks": 1250, "independence_checks": 8500, "counter_checks": 2500,
                  "counter_checks_with_nonzero_counters": 750, "purity_checks": 1250, "moment_failed_cases": 40,
@@ -1563,6 +1573,23 @@ def exercise_plain(kind, obj, payload):
     return out
 
 
+def unordered_names(v):
+    """Copy of a view in which every list / tuple made of strings only is sorted."""
+    if isinstance(v, dict):
+        return {k: unordered_names(x) for k, x in v.items()}
+    if isinstance(v, (list, tuple)):
+        if v and all(isinstance(x, str) for x in v):
+            return sorted(v)
+        return type(v)(unordered_names(x) for x in v)
+    return v
+
+
+def _hash_sensitive():
+    from vlib.gen import c20_objects as gobj
+
+    return gobj.HASH_SENSITIVE_ENTRIES
+
+
 def run_case_process(cx, case, entry, kind, o, rng, rep, scratch, tag, builder, moment):
     """Protocol "process": pickle to a file, restore and exercise in a fresh interpreter, compare with the original."""
     import subprocess
@@ -1587,6 +1614,13 @@ def run_case_process(cx, case, entry, kind, o, rng, rep, scratch, tag, builder, 
         cx.fail("roundtrip", f"raises:{type(e).__name__}:{unpicklable_attribute(o)}", f"{type(e).__name__}: {e}"[:400])
         return
     env = dict(os.environ)
+    own = env.get("PYTHONHASHSEED", "random")
+    hs = case.get("hash_seed")
+    if hs is not None:
+        if str(hs) == own:  # the shard itself runs under that seed (not the case with the dispatcher's PYTHONHASHSEED=0)
+            hs = int(hs) + 101
+        env["PYTHONHASHSEED"] = str(hs)
+    different = hs is not None
     try:
         proc = subprocess.run([sys.executable, "-m", "vlib.gen.c20_child", str(fin), str(fout)], env=env,
                               cwd=scratch, timeout=1500, capture_output=True, text=True)
@@ -1601,6 +1635,9 @@ def run_case_process(cx, case, entry, kind, o, rng, rep, scratch, tag, builder, 
     rep.count("round_trips")
     rep.count("round_trips_process")
     rep.count(f"round_trips_kind_{kind}")
+    rep.count("restored_under_a_different_hash_seed" if different else "restored_under_the_same_hash_seed")
+    if different and case["entry"] in _hash_sensitive():
+        rep.count("hash_sensitive_entries_restored_under_a_different_hash_seed")
     if got["status"] == "raise":
         cx.fail("roundtrip", "restoring-or-using-in-a-fresh-interpreter-raises:" + got["error"].split(":")[0], got["error"],
                 observed=got.get("traceback"))
@@ -1610,6 +1647,10 @@ def run_case_process(cx, case, entry, kind, o, rng, rep, scratch, tag, builder, 
     ref = entry.get("twin_obj") if entry.get("twin_obj") is not None else o
     exp = exercise_plain(kind, ref, payload)
     rep.count("static_views_compared")
+    if different:
+        # lists of names built from sets legitimately come in the order of the restoring interpreter: the views are
+        # compared with every list of strings sorted (the in-process protocols compare the orders as well)
+        exp["view"], got["result"]["view"] = unordered_names(exp["view"]), unordered_names(got["result"]["view"])
     d = same_outcome(exp["view"], got["result"]["view"], 0.0, "view")
     if d:
         cx.fail("static", "differs:" + _path_head(d), d)
@@ -1636,7 +1677,7 @@ def run_case_process(cx, case, entry, kind, o, rng, rep, scratch, tag, builder, 
 def case_signature(case):
     ops = case.get("ops")
     shape = tuple(f"{w}:{op}" for w, op, _ in ops) if ops else ()
-    return (case["entry"], case["moment"], case["protocol"], shape, bool(case.get("pre_execute")))
+    return (case["entry"], case["moment"], case["protocol"], shape, bool(case.get("pre_execute")), case.get("hash_seed"))
 
 
 # =========================================================================== one case
@@ -1893,6 +1934,7 @@ def all_cases(tier, seed):
                     if tier == "thorough" and q % 9 == 4:
                         p = "process"
                     cases.append({"entry": name, "moment": m, "protocol": p, "ops": ops, "ops_origin": origin,
+                                  "hash_seed": (1 + (q + seed) % 9) if p == "process" else None,
                                   "pre_execute": bool(in_disc and q % 3 == 2),
                                   "seed": subseed(seed, "case", name, m, p, q), "n": n})
                     n += 1
@@ -1903,12 +1945,27 @@ def all_cases(tier, seed):
                     protos.append("pickle")
             else:
                 protos = list(PROTOCOLS)
+            hash_seeds = []
             if j == min(1, len(moments) - 1) and (tier == "thorough" or (i + seed) % 8 == 0):
-                protos = [*protos, "process"]  # restored and exercised in a fresh interpreter
+                # restored and exercised in a fresh interpreter, under another string hash seed than the creator's
+                hash_seeds = [1 + (i + 3 * seed) % 9] if (i + seed) % 3 else [None]
+            if name in gobj.HASH_SENSITIVE_ENTRIES and j <= min(1, len(moments) - 1):
+                # set / dict iteration order may enter the behaviour: several restoring hash seeds + the creator's own
+                base = subseed(seed, "hash", name) % 9
+                k_seeds = (1 if j == 0 else 2) if tier == "quick" else (2 if j == 0 else 5)
+                hash_seeds = [1 + (base + 2 * q) % 9 for q in range(k_seeds)] + ([None] if j else [])
             n_specs = 1 if not name.endswith(":rand") else (1 if tier == "quick" else 5)
             for p in protos:
                 for si in range(n_specs):
                     c = {"entry": name, "moment": m, "protocol": p, "seed": subseed(seed, "case", name, m, p, si), "n": n}
+                    if name.endswith(":rand"):
+                        c["spec_index"] = (seed * 7 + si) % 1000
+                    cases.append(c)
+                    n += 1
+            for hs in dict.fromkeys(hash_seeds):
+                for si in range(n_specs if tier == "thorough" else 1):
+                    c = {"entry": name, "moment": m, "protocol": "process", "hash_seed": hs,
+                         "seed": subseed(seed, "case", name, m, "process", hs, si), "n": n}
                     if name.endswith(":rand"):
                         c["spec_index"] = (seed * 7 + si) % 1000
                     cases.append(c)
